@@ -546,8 +546,14 @@ def run_config(cfg: dict) -> list[tuple[str, str]]:
             else:
                 i = next(i for i in range(0, len(got), 4) if got[i:i + 4] != exp[i:i + 4])
                 layout_bad = any(pk_.startswith(('meta-', 'frame-table', 'frame-dimensions', 'mipmap-count-wrong')) for pk_, _ in probs)
-                probs.append(('pixels-displaced-after-layout-mismatch' if layout_bad else f'pixel-mismatch-{cfg["fmt"].lower()}', f'frame {k} pixel {i // 4}: input {tuple(orig[k][i:i + 4])} read back '
-                              f'{tuple(got[i:i + 4])}, expected {tuple(exp[i:i + 4])}'))
+                other = next((k2 for k2 in sorted(orig, key=str) if k2 != k and dims0.get(k2) == dims0[k] and len(got) > 4
+                              and ref_quantise(cfg['fmt'], orig[k2]) == got), None)
+                if other is not None and not layout_bad:
+                    probs.append(('frames-permuted', f'frame {k} reads back exactly the pixels saved for frame {other}: save and read disagree about '
+                                                     f'the order of the (frame, side/depth, mipmap) blocks'))
+                else:
+                    probs.append(('pixels-displaced-after-layout-mismatch' if layout_bad else f'pixel-mismatch-{cfg["fmt"].lower()}', f'frame {k} pixel {i // 4}: input {tuple(orig[k][i:i + 4])} read back '
+                                  f'{tuple(got[i:i + 4])}, expected {tuple(exp[i:i + 4])}'))
             break
     if cfg['thumb'] != 'NONE' and orig_low is not None and (v2._low_res.width, v2._low_res.height) == (vtf._low_res.width, vtf._low_res.height):
         exp = ref_quantise(cfg['thumb'], orig_low)
@@ -739,6 +745,49 @@ def search_cube_override(ck: Ck) -> None:
                     break
 
 
+def full_chain(w: int, h: int, fmt_name: str, seed: int) -> str | None:
+    """A texture whose owner declares ALL the levels the constructor created (mipmap_count := number of levels - what other
+    tools write, and what the known finding mipmap-count-off-by-one withholds): levels down to 1x1 have a side clamped to 1.
+    Every level must be written and read back with its size max(w >> m, 1) x max(h >> m, 1) and its pixels."""
+    from srctools.vtf import VTF, ImageFormats
+    rng = random.Random(seed)
+    v = VTF(w, h, fmt=ImageFormats[fmt_name], thumb_fmt=ImageFormats.NONE)
+    levels = 1 + max(k[2] for k in v._frames)
+    v.mipmap_count = levels
+    pixels = {}
+    for k, f in v._frames.items():
+        f.copy_from(rng.randbytes(4 * f.width * f.height))
+        pixels[k] = bytes(f._data)
+    what = f'{w}x{h} {fmt_name} with mipmap_count set to all {levels} levels'
+    try:
+        buf = io.BytesIO()
+        v.save(buf)
+        v2 = VTF.read(io.BytesIO(buf.getvalue()))
+        v2.load()
+    except Exception as e:
+        return f'{what}: {type(e).__name__}: {e}'
+    if v2.mipmap_count != levels or set(v2._frames) != set(pixels):
+        return f'{what}: read back {v2.mipmap_count} levels, frame table {len(v2._frames)} entries instead of {len(pixels)}'
+    for k in sorted(pixels, key=str):
+        f = v2._frames[k]
+        if (f.width, f.height) != (max(w >> k[2], 1), max(h >> k[2], 1)):
+            return f'{what}: level {k[2]} read back as {f.width}x{f.height}'
+        if bytes(f._data) != ref_quantise(fmt_name, pixels[k]):
+            return f'{what}: level {k[2]} reads back other pixels than were saved'
+    return None
+
+
+def search_full_chain(ck: Ck) -> None:
+    for (w, h) in [(8, 2), (2, 8), (16, 1), (1, 4), (4, 4), (32, 4)]:
+        for fmt_name in ('RGBA8888', 'BGR888'):
+            ck.count('full_mip_chains')
+            ck.seen(('full_chain', w, h, fmt_name))
+            what = full_chain(w, h, fmt_name, ck.seed + w * 64 + h)
+            if what is not None:
+                ck.violation('full-mip-chain-not-read-back', what, {'full_chain': [w, h, fmt_name, ck.seed + w * 64 + h]})
+                return
+
+
 # ================================================================================================ bounds / mipmap filters / sheets
 def search_bounds(ck: Ck) -> None:
     from srctools.vtf import VTF
@@ -818,6 +867,7 @@ def search_filters(ck: Ck) -> None:
 
 # ================================================================================================ container
 GEN_F = '(cfmts_of_sites gen_version gen_header gen_depth gen_res_count gen_entry_inline (fst gen_block_len_r))'
+GEN_SF = '(sfmts_of_sites gen_sheet_head gen_sheet_seq gen_sheet_dur gen_sheet_tex)'
 _SITES = ['version', 'header', 'depth', 'res_count', 'entry_inline', 'sheet_head', 'sheet_seq', 'sheet_dur', 'sheet_tex']
 CONT_OBS = {f'site_{n}_same_format_and_field_order_on_both_sides': f'site_ok gen_{n}' for n in _SITES}
 CONT_OBS.update({
@@ -861,14 +911,21 @@ CONT_OBS.update({
     'container_formats_are_those_of_the_documented_layout': f'cfmts_eqb {GEN_F} std_fmts',
     'example_file_7_4_with_inline_and_data_resources_and_sheet_is_decoded_as_encoded': f'(vfile_fits {GEN_F} gen_flagcfg (ex_file 4) && ex_roundtrip_ok {GEN_F} gen_flagcfg 4)%bool',
     'example_files_7_3_and_7_2_are_decoded_as_encoded': f'(ex_roundtrip_ok {GEN_F} gen_flagcfg 3 && vfile_fits_old {GEN_F} (ex_file 2) && ex_roundtrip_ok {GEN_F} gen_flagcfg 2)%bool',
+    # premises of c15_sheet_roundtrip for the GENERATED sheet formats; the example sheet through them, both versions
+    'sheet_formats_are_well_formed': f'sfmts_wf {GEN_SF}',
+    'example_sheet_is_read_back_in_both_sheet_versions': f'(ex_sheet_ok {GEN_SF} 1 && ex_sheet_ok {GEN_SF} 0)%bool',
+    # where save() records the offsets it patches into the directory / header (order of the file-writing events)
+    'save_records_the_header_size_behind_the_directory_and_before_any_data': 'header_size_ok gen_save_events',
+    'save_records_each_data_block_offset_right_before_its_length_and_data':
+        '(set_then_block "res" gen_save_events && set_then_block "particle" gen_save_events)%bool%string',
+    'save_records_thumbnail_and_first_frame_offsets_right_before_they_are_written': 'low_high_ok gen_save_events',
     'sheet_version_tests_present_on_both_sides':
         '(existsb (String.eqb "version == 1") gen_sheet_tests && existsb (String.eqb "version == 0") gen_sheet_tests)%bool%string',
 })
 
 PRE_CONT = """Import ListNotations. Open Scope list_scope.
 Definition F : cfmts := """ + GEN_F + """.
-Definition SF : sfmts := {| s_head := fmt_of (w_fmt gen_sheet_head); s_seq := fmt_of (w_fmt gen_sheet_seq); s_dur := fmt_of (w_fmt gen_sheet_dur);
-  s_tex := fmt_of (w_fmt gen_sheet_tex) |}.
+Definition SF : sfmts := """ + GEN_SF + """.
 Definition zn (z : Z) : N := Z.to_N (z + 4294967296).
 Definition serv (v : value) : list N := match v with VInt z => [zn z] | VFloat b => [b] | VBool b => [if b then 1 else 0]%N | VBytes l => l end.
 Definition ser_res (r : list N * Z * resval) : list N :=
@@ -975,6 +1032,30 @@ def _coq_sheet(cfg: dict) -> str:
     return f'(mk_sheet {cfg["sheet_ver"]} [{"; ".join(qs)}])'
 
 
+def foreign_chain(data: bytes, w: int, h: int, n_full: int, dims: list, blocks: list) -> str | None:
+    """A wxh RGBA8888 file that declares all n_full levels (smallest first in the file): what VTF.read must make of it."""
+    from srctools.vtf import VTF
+    what = f'{w}x{h} file declaring all {n_full} mipmap levels'
+    try:
+        v = VTF.read(io.BytesIO(data))
+        if v.mipmap_count != n_full or set(v._frames) != {(0, 0, m) for m in range(n_full)}:
+            return f'{what}: read as {v.mipmap_count} levels with frame table {sorted(v._frames)}'
+        for (fw, fh), blk, m in zip(dims, blocks, reversed(range(n_full))):
+            f = v._frames[0, 0, m]
+            if (f.width, f.height) != (fw, fh):
+                return f'{what}: level {m} read as {f.width}x{f.height} instead of {fw}x{fh}'
+            off = f._fileinfo[1]
+            if data[off:off + len(blk)] != blk:
+                return f'{what}: level {m} is read from offset {off}, where its block is not'
+        v.load()
+        for (fw, fh), blk, m in zip(dims, blocks, reversed(range(n_full))):
+            if bytes(v._frames[0, 0, m]._data) != blk:
+                return f'{what}: level {m} loads other pixels than the file holds'
+    except Exception as e:
+        return f'{what}: {type(e).__name__}: {e}'
+    return None
+
+
 def corr_container(ck: Ck) -> None:
     """Both directions: files saved by the implementation are decoded by the Coq model (decode_file / read_sheet over the
     GENERATED formats) and compared with the configuration; files encoded by the Coq model are read by VTF.read."""
@@ -1002,7 +1083,13 @@ def corr_container(ck: Ck) -> None:
             ck.violation(f'save-raises-{type(e).__name__}', f'save raised {type(e).__name__}: {e}', {'config': c})
             continue
         b1 = buf.getvalue()
-        lazy = VTF.read(io.BytesIO(b1))
+        try:
+            lazy = VTF.read(io.BytesIO(b1))
+        except Exception as e:
+            ck.violation(f'read-raises-{type(e).__name__}', f'reading the saved file raised {type(e).__name__}: {e}', {'config': c})
+            ck.obligation('correspondence:container', False, f'a file saved by VTF.save cannot be read back: {type(e).__name__}: {e}')
+            ck.tie_broken.append('correspondence container: VTF.read raises on a file written by VTF.save')
+            return
         offs = [f._fileinfo[1] for f in lazy._frames.values() if f._fileinfo]
         low_fi = lazy._low_res._fileinfo
         low_size = ImageFormats[c['thumb']].frame_size(16, 16) if c['thumb'] != 'NONE' else 0
@@ -1031,6 +1118,21 @@ def corr_container(ck: Ck) -> None:
         exprs.append('enc {| v_minor := %d; v_header := [%s]; v_depth := %d; v_res := [%s]; v_sheet := %s; v_low := %s; v_high := [%s] |}'
                      % (c['version'], hv, c['depth'], res, sheet, common.coq_bytes(lowb), '; '.join(common.coq_bytes(b) for b in blocks)))
         metas.append(('enc', c, (vtf, blocks, lowb, [k for k in lazy._frames]), None))
+    # files as OTHER tools write them: all levels down to 1x1 are declared (mipmap_count = log2(max side) + 1), so the small
+    # levels of a non-square texture have one side clamped to 1 - srctools itself never declares them (known finding
+    # mipmap-count-off-by-one), but VTF.read must give them the size max(w >> m, 1) x max(h >> m, 1) and the right blocks
+    for (fw, fh) in [(8, 2), (2, 16), (4, 4)]:
+        fv = VTF(fw, fh, version=(7, 4), fmt=ImageFormats.RGBA8888, thumb_fmt=ImageFormats.NONE)
+        n_full = max(fw, fh).bit_length()
+        r = random.Random(ck.seed + fw * 100 + fh)
+        dims = [(max(fw >> m, 1), max(fh >> m, 1)) for m in reversed(range(n_full))]
+        blocks = [r.randbytes(4 * a * b_) for a, b_ in dims]
+        hv = '; '.join(f'VInt {v}' for v in [0, fw, fh, 0, 1, 0]) + '; VFloat 0; VFloat 0; VFloat 0; VFloat 1065353216; ' \
+            + '; '.join(f'VInt ({v})' for v in [fv.format.bin_value(True), n_full, fv.low_format.bin_value(True), 16, 16])
+        exprs.append('enc {| v_minor := 4; v_header := [%s]; v_depth := 1; v_res := []; v_sheet := None; v_low := []; v_high := [%s] |}'
+                     % (hv, '; '.join(common.coq_bytes(b_) for b_ in blocks)))
+        metas.append(('foreign', {'w': fw, 'h': fh}, (n_full, dims, blocks), None))
+        ck.count('container_foreign_full_chain_files')
     vals = ck.coq_eval(IMPORTS_CONT, exprs, name='container', preamble=PRE_CONT, timeout=600) if exprs else []
     if vals is None:
         ck.obligation('correspondence:container', False, 'the container model could not be evaluated in Coq')
@@ -1044,6 +1146,12 @@ def corr_container(ck: Ck) -> None:
                 i = next((i for i, (a, b) in enumerate(zip(got, exp)) if a != b), min(len(got), len(exp)))
                 bad.append({'direction': 'implementation file decoded by the model', 'config': c, 'first_difference_at': i,
                             'model': got[max(0, i - 2):i + 3], 'expected': exp[max(0, i - 2):i + 3]})
+            continue
+        if kind == 'foreign':
+            what = foreign_chain(bytes(got), c['w'], c['h'], *exp)
+            if what is not None:
+                bad.append({'direction': 'full-chain file (as other tools write it) encoded by the model, read by VTF.read', 'size': c, 'problem': what})
+                ck.violation('foreign-full-mip-chain-misread', what, {'foreign_chain': [bytes(got).hex(), c['w'], c['h'], exp[0], exp[1], [b_.hex() for b_ in exp[2]]]})
             continue
         vtf, blocks, lowb, keys = exp
         ck.count('container_files_encoded_by_model')
@@ -1412,7 +1520,8 @@ def run(ck: Ck) -> None:
                '(load/clear/fill/copy_from/__setitem__/rescale_from/compute_mipmaps/__exit__ on random levels) plus 13 fixed histories, '
                'then save; distinct by the operation list, non-trivial = at least one operation. '
                'container: small sizes, versions 7.2-7.5, cubemaps, depth, frames, 0-4 resources, sheets; distinct by configuration. '
-               'cubemap save(version=) overrides: all 12 ordered pairs of versions.')
+               'cubemap save(version=) overrides: all 12 ordered pairs of versions, 1-3 frames, also on a lazily read object. '
+               'full mip chains: six shapes (square and not) x two formats with mipmap_count set to the number of levels.')
     ck.trusted.append('Fmt/VtfPixelExpr.v specification tuples spec_* / canon_* (hand-written from the docstrings; their meaning as functions '
                       'is restated by c15_spec_* theorems) and checks/c15.py ref_quantise (independent Python restatement used by the oracle)')
     ck.trusted.append('translate/c15_frame.py tables D_COQ/S_COQ and READERS, translate/c15_container.py tables SAVE_FIELD/READ_FIELD/READ_ATTR '
@@ -1471,6 +1580,7 @@ def run(ck: Ck) -> None:
             'bilinear_adds_the_four_block_texels': 'terms_eqb bilinear_terms block_terms',
             'bilinear_divides_by_4': 'Z.eqb bilinear_div 4',
             'nearest_filters_pick_block_corners': 'terms_eqb nearest_terms block_terms',
+            'nearest_filters_use_the_same_texel_offsets_as_bilinear': 'nearest_offsets_same_as_bilinear',
         })
         ck.instance_obligations(IMPORTS, obs)
         ck.instance_obligations(IMPORTS_FRAME, FRAME_OBS, name='inst_frame')
@@ -1483,6 +1593,7 @@ def run(ck: Ck) -> None:
     search_filters(ck)
     search_files(ck)
     search_cube_override(ck)
+    search_full_chain(ck)
     # which broken obligations do the concrete violations explain?  Only NEW violations count: a known finding is reported
     # on every run and explains nothing that breaks today (round 3: the known mipmap-count finding used to explain a
     # failed layout translation, so a tree on which the proof side was not checked at all could exit 0).
@@ -1509,6 +1620,14 @@ def run(ck: Ck) -> None:
             ck.explain('instance:inline_entries')
             ck.explain('instance:fixed_entries')
             ck.explain('instance:resource_flag')
+            ck.explain('instance:save_records')
+            ck.explain('instance:example_')
+            ck.explain('instance:container_formats')
+            ck.explain('instance:sheet_formats')
+            ck.explain('correspondence:container')
+        if k.startswith(('thumbnail-mismatch-', 'read-raises', 'resources-differ', 'sheet-differs', 'frames-permuted', 'pixels-displaced')):
+            ck.explain('instance:save_records')
+            ck.explain('instance:example_')
             ck.explain('correspondence:container')
         if k.startswith(('frame-history-', 'lazy-resave-')):
             ck.explain('instance:frame_')
@@ -1517,7 +1636,7 @@ def run(ck: Ck) -> None:
             ck.explain('instance:save_')
             ck.explain('correspondence:frame-histories')
             ck.explain('translate:VtfFrameSM_gen')
-        if k.startswith(('cubemap-save-version-override', 'frame-table', 'read-raises', 'save-raises', 'pixels-displaced', 'pixel-mismatch-')):
+        if k.startswith(('cubemap-save-version-override', 'frame-table', 'read-raises', 'save-raises', 'pixels-displaced', 'pixel-mismatch-', 'frames-permuted', 'full-mip-chain-')):
             ck.explain('instance:save_takes_the_side_list')
             ck.explain('instance:read_takes_the_side_list')
             ck.explain('instance:save_writes_a_blank_frame')
@@ -1532,9 +1651,10 @@ def run(ck: Ck) -> None:
         if k.startswith(('generated-mipmap', 'mip-dimensions')):
             ck.explain('instance:bilinear_')
             ck.explain('instance:nearest_')
+            ck.explain('translate:VtfLayout_gen')
             ck.explain('instance:compute_mipmaps')
             ck.explain('build:')
-        if k.startswith(('mipmap-count', 'frame-table', 'mip-dimensions', 'save-raises', 'read-raises', 'frame-dimensions', 'compute-mipmaps-raises', 'pixels-displaced')):
+        if k.startswith(('mipmap-count', 'frame-table', 'mip-dimensions', 'save-raises', 'read-raises', 'frame-dimensions', 'compute-mipmaps-raises', 'pixels-displaced', 'full-mip-chain-', 'frames-permuted', 'foreign-full-mip-chain')):
             ck.explain('translate:VtfLayout_gen')
             ck.explain('translate:VtfContainer_gen')
             ck.explain('instance:site_')
@@ -1573,6 +1693,13 @@ def replay(data: dict) -> int:
         return 0
     if 'cube_override' in r:
         print(cube_override(*r['cube_override']))
+        return 0
+    if 'foreign_chain' in r:
+        d, w, h, n_full, dims, blocks = r['foreign_chain']
+        print(foreign_chain(bytes.fromhex(d), w, h, n_full, [tuple(x) for x in dims], [bytes.fromhex(x) for x in blocks]))
+        return 0
+    if 'full_chain' in r:
+        print(full_chain(*r['full_chain']))
         return 0
     if 'history' in r:
         base, n, levels = history_base(r['seed'])
